@@ -15,7 +15,8 @@ Definition to_ps (x : sx) : postsel :=
   map (fun e => (to_nats (nthx 0 e), (to_nat (nthx 1 e), to_nat (nthx 2 e)))) (to_list x).
 Definition of_ps (p : postsel) : sx :=
   L (map (fun c => L [of_nats (fst c); of_nat_sx (fst (snd c)); of_nat_sx (snd (snd c))]) p).
-Definition of_circ (c : circ) : sx := L [of_nat_sx (c_id c); of_nat_sx (c_size c); of_nats (c_lab c)].
+Definition of_circ (c : circ) : sx :=
+  L [of_nat_sx (c_id c); of_nat_sx (c_size c); of_nats (c_lab c); of_pairs of_nat_sx I (c_vals c)].
 Definition of_dict (d : dict) : sx := of_pairs of_nat_sx (of_opt I) d.
 Definition to_dict (x : sx) : dict := to_pairs to_nat (to_opt to_Z) x.
 
@@ -30,7 +31,8 @@ Definition to_op (x : sx) : pop :=
   | 2%Z => ONoise (to_opt to_noise (nthx 1 x))
   | 3%Z => OPostsel (to_ps (nthx 1 x))
   | 4%Z => OClearPs
-  | _ => OHerald (to_nat (nthx 1 x)) (to_nat (nthx 2 x))
+  | 5%Z => OHerald (to_nat (nthx 1 x)) (to_nat (nthx 2 x))
+  | _ => OParam (to_nat (nthx 1 x)) (to_Z (nthx 2 x))
   end.
 
 Definition to_entry (x : sx) : ientry :=
@@ -67,18 +69,19 @@ Definition to_ev (x : sx) : ev :=
   | 1%Z => EAddIter (to_iteration (nthx 1 x))
   | 2%Z => EClear
   | 3%Z => EJob (to_meth (nthx 1 x))
-  | _ => EExec (to_nat (nthx 1 x)) (map (to_opt to_Z) (to_list (nthx 2 x))) (to_dict (nthx 3 x)) (to_bool (nthx 4 x))
+  | _ => EExec (to_nat (nthx 1 x)) (map (to_opt to_Z) (to_list (nthx 2 x))) (to_dict (nthx 3 x)) (to_nat (nthx 4 x))
   end.
 
 Definition exn_code (e : exn) : Z :=
   match e with XAssert => 1 | XRuntime => 2 | XValue => 3 | XNotImpl => 4 | XType => 5 | XIndex => 6
-  | XUnavail => 7 | XHttp => 8 end%Z.
+  | XUnavail => 7 | XHttp => 8 | XKey => 11 | XConn => 9 | XTimeout => 10 end%Z.
 Definition of_obs (o : obs) : sx :=
   match o with
   | ODone => L [I 0]
   | ORaised e w => L [I 1; I (exn_code e); of_nat_sx w]
   | OSent => L [I 2]
   | ORefused => L [I 1; I (exn_code XHttp); I 60]
+  | OLost t => L [I 1; I (exn_code (if t then XTimeout else XConn)); I 61]
   | OSkip => L [I 3]
   end.
 Definition obs_of_res {A} (r : res A) : obs := match r with Ok _ => ODone | Err e w => ORaised e w end.
@@ -130,7 +133,7 @@ Definition x_scenario (x : sx) : sx :=
   let b := nthx 1 x in
   let kind := to_Z (nthx 0 b) in
   let size := to_nat (nthx 2 b) in
-  let c := mkcirc (to_nat (nthx 1 b)) size (seq 0 size) in
+  let c := mkcirc (to_nat (nthx 1 b)) size (seq 0 size) (to_pairs to_nat to_Z (nthx 7 b)) in
   let pn := to_nats (nthx 3 b) in
   let ports := to_nats (nthx 5 b) in
   let with_ports p := mkproc (p_circ p) (p_pnames p) ports (p_her p) (p_in p) (p_ps p) (p_noise p) (p_filter p) in
